@@ -240,7 +240,7 @@ def run(ctx):
         bad = []
         for x in range(256):
             def sub(v, x=x):
-                if v[0] in ("proj", "param") and "[]" in v[-1] and expr.mentions(v, lambda n: n[0] == "call" and n[1].endswith("::chunk")):
+                if v[0] in ("proj", "param") and any(n.startswith("[") for n in v[-1]) and expr.mentions(v, lambda n: n[0] == "call" and n[1].endswith("::chunk")):
                     return x
                 return None
             okp = [p for p in expr.decide(alld, consts, sub) if not p.ret_shape().startswith("Err(ParseError::InvalidPrefix")]
